@@ -14,6 +14,9 @@ CONSTANTS
   MaxDup = 1
   MaxPopCalls = 3
   MaxMidFlush = 0
+  Eagers = {FALSE}
+  Holds = {0}
+  HoldFors = {0}
   Algo = "abstract"
   Impl = "asis"
   Sampling = FALSE
